@@ -5,15 +5,537 @@ From RecordUpdate Require Import RecordSet.
 Import RecordSetNotations.
 Open Scope N_scope.
 
-(** the witness of defect B on the unchanged tree: [disable_help_flag], one short Count flag *)
-Definition witness_B : hcmd :=
-  cmd_with ((hcmd_new [112]) <| hc_set := hset_none <| hs_no_help_flag := true |> |>
-                             <| hc_gset := hset_none <| hs_no_help_flag := true |> |>)
-           [ (harg_new [118] ACount) <| ha_short := Some 118 |> ] [].
+(** ---- generic helpers ---- *)
+Lemma map_opt_some {A B} (f : A -> option B) l :
+  (forall x, In x l -> exists y, f x = Some y) -> exists r, map_opt f l = Some r.
+Proof.
+  induction l as [|a t IH]; intros H; cbn [map_opt].
+  - eauto.
+  - destruct (H a (or_introl eq_refl)) as [y Hy]. rewrite Hy.
+    destruct IH as [r Hr]. { intros x Hx. apply H. right. exact Hx. }
+    rewrite Hr. eauto.
+Qed.
 
-Lemma padding_safe_refuted :
-  exists c w, render_help len c false w = None.
-Proof. exists witness_B, 80. vm_compute. reflexivity. Qed.
+Lemma map_opt_in {A B} (f : A -> option B) l r y :
+  map_opt f l = Some r -> In y r -> exists x, In x l /\ f x = Some y.
+Proof.
+  revert r. induction l as [|a t IH]; intros r H Hy; cbn [map_opt] in H.
+  - inversion H; subst. destruct Hy.
+  - destruct (f a) as [b|] eqn:Fa; [|discriminate].
+    destruct (map_opt f t) as [r'|] eqn:Ft; [|discriminate].
+    inversion H; subst. destruct Hy as [Hy|Hy].
+    + subst. exists a. split; [left; reflexivity|exact Fa].
+    + destruct (IH r' eq_refl Hy) as [x [Hx Fx]]. exists x. split; [right; exact Hx|exact Fx].
+Qed.
 
-Lemma hide_never_shown : forall use_long a, ha_hide a = true -> should_show_arg use_long a = false.
-Proof. intros l a H. unfold should_show_arg. rewrite H. reflexivity. Qed.
+Lemma map_opt_all {A B} (f : A -> option B) l r x :
+  map_opt f l = Some r -> In x l -> exists y, f x = Some y /\ In y r.
+Proof.
+  revert r. induction l as [|a t IH]; intros r H Hx; cbn [map_opt] in H.
+  - destruct Hx.
+  - destruct (f a) as [b|] eqn:Fa; [|discriminate].
+    destruct (map_opt f t) as [r'|] eqn:Ft; [|discriminate].
+    inversion H; subst. destruct Hx as [Hx|Hx].
+    + subst. exists b. split; [exact Fa|left; reflexivity].
+    + destruct (IH r' eq_refl Hx) as [y [Fy Hy]]. exists y. split; [exact Fy|right; exact Hy].
+Qed.
+
+Lemma checked_sub_some a b : b <= a -> checked_sub a b = Some (a - b).
+Proof. intros H. unfold checked_sub. destruct (N.leb_spec b a); [reflexivity|lia]. Qed.
+
+Lemma fmt_pad_some n : n <= FMT_WIDTH_MAX -> fmt_pad n = Some n.
+Proof. intros H. unfold fmt_pad. destruct (N.leb_spec n FMT_WIDTH_MAX); [reflexivity|lia]. Qed.
+
+(** ---- an argument renders once it is built ---- *)
+Definition arg_ok (a : harg) : bool :=
+  is_some (ha_num a) && implb (ha_is_positional a) (ha_takes_value a && is_some (ha_index a)).
+
+Lemma suffix_some a r : arg_ok a = true -> exists s, stylize_arg_suffix a r = Some s.
+Proof.
+  unfold arg_ok, stylize_arg_suffix, render_arg_val. intros H.
+  apply andb_true_iff in H. destruct H as [Hn Hp].
+  destruct (ha_num a) as [v|] eqn:En; [|discriminate].
+  destruct (ha_takes_value a) eqn:T; destruct (ha_is_positional a) eqn:P; cbn in Hp |- *;
+    try discriminate;
+    repeat match goal with |- context [if ?b then _ else _] => destruct b end; cbn; eauto.
+Qed.
+
+Lemma stylized_some a r : arg_ok a = true -> exists s, stylized a r = Some s.
+Proof. intros H. unfold stylized. destruct (suffix_some a r H) as [s Hs]. rewrite Hs. eauto. Qed.
+
+Lemma left_col_some a : arg_ok a = true -> exists s, left_col a = Some s.
+Proof. intros H. unfold left_col. destruct (suffix_some a None H) as [s Hs]. rewrite Hs. eauto. Qed.
+
+Lemma positional_index a : arg_ok a = true -> ha_is_positional a = true -> exists i, ha_index a = Some i.
+Proof.
+  unfold arg_ok. intros H P. rewrite P in H. apply andb_true_iff in H. destruct H as [_ H].
+  cbn in H. apply andb_true_iff in H. destruct H as [_ H]. destruct (ha_index a); [eauto|discriminate].
+Qed.
+
+Section P.
+Variable dw : bytes -> N.
+
+(** what an argument contributes to [longest] *)
+Definition contrib (a : harg) : N :=
+  match arg_to_string a with
+  | Some s => if longest_filter a then (if ha_is_positional a then dw s else dw s + SHORT_SIZE) else dw s
+  | None => 0
+  end.
+
+Lemma wa_longest_spec l :
+  (forall a, In a l -> arg_ok a = true) -> forall acc,
+  exists L, wa_longest dw l acc = Some L /\ acc <= L /\ (forall a, In a l -> contrib a <= L)
+            /\ (L = acc \/ exists a, In a l /\ L = contrib a).
+Proof.
+  induction l as [|a t IH]; intros Hok acc; cbn [wa_longest].
+  - exists acc. repeat split; [lia|intros a []|left; reflexivity].
+  - destruct (stylized_some a None (Hok a (or_introl eq_refl))) as [s Hs].
+    assert (Hc : contrib a = if longest_filter a then (if ha_is_positional a then dw s else dw s + SHORT_SIZE) else dw s).
+    { unfold contrib, arg_to_string. rewrite Hs. reflexivity. }
+    unfold arg_to_string. rewrite Hs.
+    set (x := contrib a) in *.
+    assert (Hstep : exists L, (if longest_filter a
+                               then wa_longest dw t (N.max acc (if ha_is_positional a then dw s else dw s + SHORT_SIZE))
+                               else wa_longest dw t (N.max acc (dw s))) = Some L
+                              /\ N.max acc x <= L /\ (forall b, In b t -> contrib b <= L)
+                              /\ (L = N.max acc x \/ exists b, In b t /\ L = contrib b)).
+    { destruct (longest_filter a); rewrite Hc; apply IH; intros b Hb; apply Hok; right; exact Hb. }
+    destruct Hstep as [L [H1 [H2 [H3 H4]]]].
+    exists L. split.
+    { destruct (longest_filter a); exact H1. }
+    split; [lia|]. split.
+    + intros b [Hb|Hb]; [subst b; fold x; lia|apply H3; exact Hb].
+    + destruct H4 as [H4|[b [Hb H4]]].
+      * destruct (N.max_spec acc x) as [[_ E]|[_ E]]; rewrite E in H4.
+        -- right. exists a. split; [left; reflexivity|exact H4].
+        -- left. exact H4.
+      * right. exists b. split; [right; exact Hb|exact H4].
+Qed.
+
+Lemma positional_longest_filter a : ha_is_positional a = true -> longest_filter a = true.
+Proof.
+  unfold ha_is_positional, longest_filter. intros H. apply andb_true_iff in H. destruct H as [_ H].
+  rewrite H. rewrite !orb_true_r. reflexivity.
+Qed.
+
+(** [align_to_about] never underflows once [longest] covers the argument's contribution *)
+Lemma align_some cx a nl L :
+  arg_ok a = true -> contrib a <= L -> L + 6 <= FMT_WIDTH_MAX ->
+  exists p, align_to_about dw cx a nl L = Some p /\ p <= L + 6.
+Proof.
+  intros Hok Hc Hf. unfold align_to_about.
+  destruct (cx_use_long cx || nl).
+  { exists 0. rewrite fmt_pad_some by (unfold FMT_WIDTH_MAX; lia). split; [reflexivity|lia]. }
+  destruct (stylized_some a None Hok) as [s Hs]. unfold contrib, arg_to_string in *. rewrite Hs in *.
+  unfold TAB_WIDTH, SHORT_SIZE in *.
+  destruct (ha_is_positional a) eqn:P; cbn [negb].
+  - rewrite (positional_longest_filter a P) in Hc.
+    rewrite checked_sub_some by lia. rewrite fmt_pad_some by lia. eexists; split; [reflexivity|lia].
+  - unfold longest_filter in Hc. destruct (ha_long a) as [l|] eqn:Lg; cbn [is_some] in *.
+    + rewrite orb_true_r in Hc. cbn [orb] in Hc.
+      rewrite checked_sub_some by lia. rewrite fmt_pad_some by lia. eexists; split; [reflexivity|lia].
+    + assert (Hw : dw s <= L) by (destruct (ha_takes_value a || false || negb (is_some (ha_short a))); lia).
+      rewrite checked_sub_some by lia. rewrite fmt_pad_some by lia. eexists; split; [reflexivity|lia].
+Qed.
+
+(** ---- possible values ---- *)
+Lemma max_list_ge l x : In x l -> exists m, max_list l = Some m /\ x <= m.
+Proof.
+  induction l as [|y t IH]; intros H; [destruct H|]. cbn [max_list].
+  destruct H as [H|H].
+  - subst. destruct (max_list t); eexists; split; try reflexivity; lia.
+  - destruct (IH H) as [m [Hm Hx]]. rewrite Hm. eexists; split; [reflexivity|lia].
+Qed.
+Lemma max_list_in l m : max_list l = Some m -> In m l.
+Proof.
+  revert m. induction l as [|y t IH]; intros m H; [discriminate|]. cbn [max_list] in H.
+  destruct (max_list t) as [m'|] eqn:E.
+  - inversion H; subst. destruct (N.max_spec y m') as [[_ E2]|[_ E2]]; rewrite E2.
+    + right. apply IH. reflexivity.
+    + left. reflexivity.
+  - inversion H; subst. left. reflexivity.
+Qed.
+
+Definition pv_widths_ok (a : harg) : Prop := forall p, In p (ha_pvs a) -> dw (pv_name p) <= FMT_WIDTH_MAX.
+
+Lemma visible_pvs_sub a p : In p (visible_pvs a) -> In p (ha_pvs a) /\ pv_hide p = false.
+Proof.
+  unfold visible_pvs, ha_possible_values. intros H. apply filter_In in H. destruct H as [H1 H2].
+  destruct (ha_takes_value a); [|destruct H1]. split; [exact H1|]. destruct (pv_hide p); [discriminate|reflexivity].
+Qed.
+
+Lemma help_pvs_some cx a spaces :
+  pv_widths_ok a -> spaces + 2 <= FMT_WIDTH_MAX -> exists r, help_pvs dw cx a spaces = Some r.
+Proof.
+  intros Hw Hs. unfold help_pvs.
+  destruct (negb (ha_hide_pv a) && use_long_pv (cx_use_long cx) a) eqn:C; [|eauto].
+  destruct (is_nil (ha_possible_values a)) eqn:Nil; [eauto|].
+  apply andb_true_iff in C. destruct C as [_ C]. unfold use_long_pv in C.
+  apply andb_true_iff in C. destruct C as [_ C]. apply existsb_exists in C. destruct C as [p [Hp Sp]].
+  assert (Hv : In p (visible_pvs a)).
+  { unfold visible_pvs. apply filter_In. split; [exact Hp|]. unfold pv_should_show_help in Sp.
+    apply andb_true_iff in Sp. destruct Sp as [Sp _]. exact Sp. }
+  destruct (max_list_ge (map (fun p => dw (pv_name p)) (visible_pvs a)) (dw (pv_name p))) as [m [Hm _]].
+  { apply in_map_iff. exists p. split; [reflexivity|exact Hv]. }
+  rewrite Hm.
+  assert (Hmb : m <= FMT_WIDTH_MAX).
+  { apply max_list_in in Hm. apply in_map_iff in Hm. destruct Hm as [q [Eq Hq]]. subst m.
+    apply Hw. apply (visible_pvs_sub a q Hq). }
+  unfold TAB_WIDTH. rewrite fmt_pad_some by lia.
+  destruct (map_opt_some (fun p0 : hpv =>
+       match pv_help p0 with
+       | Some _ => match checked_sub m (dw (pv_name p0)) with
+                   | Some padding => match fmt_pad padding with Some _ => Some (pv_name p0) | None => None end
+                   | None => None end
+       | None => Some (pv_name p0)
+       end) (visible_pvs a)) as [r Hr].
+  { intros q Hq. destruct (pv_help q); [|eauto].
+    destruct (max_list_ge (map (fun p => dw (pv_name p)) (visible_pvs a)) (dw (pv_name q))) as [m' [Hm' Hle]].
+    { apply in_map_iff. exists q. split; [reflexivity|exact Hq]. }
+    rewrite Hm in Hm'. inversion Hm'; subst m'.
+    rewrite checked_sub_some by exact Hle. rewrite fmt_pad_some by lia. eauto. }
+  rewrite Hr. eauto.
+Qed.
+
+End P.
+
+(** ---- the BTreeMap holds only (and, with distinct keys, all) inserted values ---- *)
+Lemma bt_insert_in {K V} (cmp : K -> K -> comparison) k (v : V) m p :
+  In p (bt_insert cmp k v m) -> snd p = v \/ In p m.
+Proof.
+  induction m as [|[k' v'] t IH]; cbn [bt_insert]; intros H.
+  - destruct H as [H|[]]. subst. left. reflexivity.
+  - destruct (cmp k k').
+    + destruct H as [H|H]; [subst; left; reflexivity|right; right; exact H].
+    + destruct H as [H|H]; [subst; left; reflexivity|right; exact H].
+    + destruct H as [H|H]; [right; left; exact H|].
+      destruct (IH H) as [E|E]; [left; exact E|right; right; exact E].
+Qed.
+
+Lemma fold_insert_in {K V A} (cmp : K -> K -> comparison) (kf : A -> K) (vf : A -> V) l : forall m p,
+  In p (fold_left (fun m a => bt_insert cmp (kf a) (vf a) m) l m) ->
+  In p m \/ exists a, In a l /\ snd p = vf a.
+Proof.
+  induction l as [|a t IH]; intros m p H; cbn [fold_left] in H.
+  - left. exact H.
+  - destruct (IH _ _ H) as [H1|[b [Hb E]]].
+    + destruct (bt_insert_in _ _ _ _ _ H1) as [E|E].
+      * right. exists a. split; [left; reflexivity|exact E].
+      * left. exact E.
+    + right. exists b. split; [right; exact Hb|exact E].
+Qed.
+
+Lemma wa_ord_in key shown p : In p (wa_ord key shown) -> In (snd p) shown.
+Proof.
+  unfold wa_ord. intros H.
+  destruct (fold_insert_in akey_cmp (fun a => (key a, ha_id a)) (fun a => a) shown [] p H) as [[]|[a [Ha E]]].
+  rewrite E. exact Ha.
+Qed.
+
+Section P2.
+Variable dw : bytes -> N.
+
+Definition arg_widths_ok (a : harg) : Prop := contrib dw a + 12 <= FMT_WIDTH_MAX /\ pv_widths_ok dw a.
+
+Lemma write_arg_some cx a nl L :
+  arg_ok a = true -> arg_widths_ok a -> contrib dw a <= L -> L + 12 <= FMT_WIDTH_MAX ->
+  exists r, write_arg dw cx a nl L = Some r /\ r_id r = ha_id a /\ r_pad r <= L + 6
+            /\ (forall p, In p (r_pvs r) -> exists pv, In pv (ha_pvs a) /\ pv_hide pv = false /\ pv_name pv = p).
+Proof.
+  intros Hok [Hw Hp] Hc HL. unfold write_arg.
+  destruct (left_col_some a Hok) as [lc Hlc]. rewrite Hlc.
+  destruct (align_some dw cx a nl L Hok Hc) as [pad [Hpad Hb]]; [lia|]. rewrite Hpad.
+  unfold help_arg.
+  destruct (help_pvs_some dw cx a (if nl then TAB_WIDTH + NEXT_LINE_INDENT_LEN else L + TAB_WIDTH * 2) Hp) as [pvs Hpvs].
+  { unfold TAB_WIDTH, NEXT_LINE_INDENT_LEN. destruct nl; lia. }
+  rewrite Hpvs. eexists. split; [reflexivity|]. cbn [r_id r_pad r_pvs]. split; [reflexivity|]. split; [exact Hb|].
+  intros p Hin. destruct (ha_hide_pv a || is_nil (ha_possible_values a)); [destruct Hin|].
+  apply in_map_iff in Hin. destruct Hin as [pv [E Hv]]. exists pv.
+  destruct (visible_pvs_sub a pv Hv) as [H1 H2]. repeat split; assumption.
+Qed.
+
+(** [write_args]: total; every row comes from a shown argument; the padding is bounded by
+    [longest + 6], and [longest] is 2 or the contribution of one of the arguments *)
+Lemma write_args_spec cx args key :
+  (forall a, In a args -> arg_ok a = true /\ arg_widths_ok a) ->
+  exists rows, write_args dw cx args key = Some rows /\
+    forall r, In r rows ->
+      exists a, In a args /\ should_show_arg (cx_use_long cx) a = true /\ r_id r = ha_id a
+                /\ (exists b, (b = 2 \/ exists a', In a' args /\ b = contrib dw a') /\ r_pad r <= b + 6)
+                /\ (forall p, In p (r_pvs r) -> exists pv, In pv (ha_pvs a) /\ pv_hide pv = false /\ pv_name pv = p).
+Proof.
+  intros Hargs. unfold write_args.
+  set (shown := filter (should_show_arg (cx_use_long cx)) args).
+  assert (Hsh : forall a, In a shown -> In a args /\ should_show_arg (cx_use_long cx) a = true).
+  { intros a Ha. apply filter_In in Ha. exact Ha. }
+  destruct (wa_longest_spec dw shown) with (acc := 2) as [L [HL [H2 [Hall Hwit]]]].
+  { intros a Ha. apply Hargs. apply Hsh. exact Ha. }
+  rewrite HL.
+  assert (HLb : L + 12 <= FMT_WIDTH_MAX).
+  { destruct Hwit as [E|[a [Ha E]]]; [subst; unfold FMT_WIDTH_MAX; lia|].
+    subst L. destruct (Hargs a) as [_ [Hw _]]; [apply Hsh; exact Ha|exact Hw]. }
+  destruct (map_opt_some (fun p : akey * harg => write_arg dw cx (snd p) (will_args_wrap dw cx args L) L) (wa_ord key shown)) as [rows Hrows].
+  { intros p Hp. apply wa_ord_in in Hp. destruct (Hargs (snd p)) as [Hok Hw]; [apply Hsh; exact Hp|].
+    destruct (write_arg_some cx (snd p) (will_args_wrap dw cx args L) L Hok Hw (Hall _ Hp) HLb) as [r [Hr _]]. eauto. }
+  exists rows. split; [exact Hrows|].
+  intros r Hr. destruct (map_opt_in _ _ _ _ Hrows Hr) as [p [Hp Hw]].
+  apply wa_ord_in in Hp. destruct (Hsh _ Hp) as [Hin Hshow]. destruct (Hargs _ Hin) as [Hok Hwd].
+  destruct (write_arg_some cx (snd p) (will_args_wrap dw cx args L) L Hok Hwd (Hall _ Hp) HLb) as [r' [Hr' [Hid [Hpad Hpv]]]].
+  rewrite Hw in Hr'. inversion Hr'; subst r'.
+  exists (snd p). repeat split; try assumption.
+  exists L. split; [|exact Hpad].
+  destruct Hwit as [E|[a [Ha E]]]; [left; exact E|right; exists a; split; [apply Hsh; exact Ha|exact E]].
+Qed.
+
+(** ---- subcommands ---- *)
+Lemma fold_max_spec {A} (f : A -> N) l : forall acc,
+  acc <= fold_left (fun m x => N.max m (f x)) l acc
+  /\ (forall x, In x l -> f x <= fold_left (fun m x => N.max m (f x)) l acc)
+  /\ (fold_left (fun m x => N.max m (f x)) l acc = acc \/ exists x, In x l /\ fold_left (fun m x => N.max m (f x)) l acc = f x).
+Proof.
+  induction l as [|a t IH]; intros acc; cbn [fold_left].
+  - repeat split; [lia|intros x []|left; reflexivity].
+  - destruct (IH (N.max acc (f a))) as [H1 [H2 H3]].
+    set (R := fold_left (fun m x => N.max m (f x)) t (N.max acc (f a))) in *. repeat split.
+    + lia.
+    + intros x [Hx|Hx]; [subst; lia|apply H2; exact Hx].
+    + destruct H3 as [H3|[x [Hx H3]]].
+      * destruct (N.max_spec acc (f a)) as [[_ E]|[_ E]].
+        -- right. exists a. split; [left; reflexivity|lia].
+        -- left. lia.
+      * right. exists x. split; [right; exact Hx|exact H3].
+Qed.
+
+Definition sub_widths_ok (c : hcmd) : Prop := forall sc, In sc (hc_subs c) -> dw (sc_str sc) + 12 <= FMT_WIDTH_MAX.
+
+Lemma write_subcommands_spec cx c :
+  sub_widths_ok c ->
+  exists rows, write_subcommands dw cx c = Some rows /\
+    forall r, In r rows -> exists sc, In sc (hc_subs c) /\ hc_hide sc = false /\ r_id r = hc_name sc
+                                      /\ (exists b, (b = 2 \/ exists s', In s' (hc_subs c) /\ b = dw (sc_str s')) /\ r_pad r <= b + 2)
+                                      /\ r_pvs r = [].
+Proof.
+  intros Hw. unfold write_subcommands.
+  set (vis := filter should_show_subcommand (hc_subs c)).
+  assert (Hvis : forall sc, In sc vis -> In sc (hc_subs c) /\ hc_hide sc = false).
+  { intros sc H. apply filter_In in H. destruct H as [H1 H2]. split; [exact H1|].
+    unfold should_show_subcommand in H2. destruct (hc_hide sc); [discriminate|reflexivity]. }
+  set (L := fold_left (fun acc sc => N.max acc (dw (sc_str sc))) vis 2).
+  destruct (fold_max_spec (fun sc => dw (sc_str sc)) vis 2) as [H2 [Hall Hwit]]. fold L in H2, Hall, Hwit.
+  assert (HLb : L + 12 <= FMT_WIDTH_MAX).
+  { destruct Hwit as [E|[sc [Hsc E]]]; [rewrite E; unfold FMT_WIDTH_MAX; lia|]. rewrite E. apply Hw. apply Hvis. exact Hsc. }
+  set (nl := existsb (fun sc => subcommand_next_line_help dw cx sc L) vis).
+  set (ord := fold_left (fun m sc => bt_insert key_cmp (hc_display_order sc, sc_str sc) sc m) vis []).
+  assert (Hord : forall p, In p ord -> In (snd p) vis).
+  { intros p Hp. destruct (fold_insert_in key_cmp (fun sc => (hc_display_order sc, sc_str sc)) (fun sc => sc) vis [] p Hp) as [[]|[a [Ha E]]].
+    rewrite E. exact Ha. }
+  assert (Hone : forall p, In p ord -> exists pad, subcmd dw (sc_str (snd p)) nl L = Some pad /\ pad <= L + 2).
+  { intros p Hp. unfold subcmd. destruct nl; cbn [negb].
+    - exists 0. split; [reflexivity|lia].
+    - unfold TAB_WIDTH. pose proof (Hall _ (Hord _ Hp)) as Hle. cbn beta in Hle.
+      rewrite checked_sub_some by lia. rewrite fmt_pad_some by lia. eexists; split; [reflexivity|lia]. }
+  destruct (map_opt_some (fun p : key * hcmd =>
+      match subcmd dw (sc_str (snd p)) nl L with
+      | Some pad => Some (mkRow (hc_name (snd p)) (sc_str (snd p)) pad nl [])
+      | None => None end) ord) as [rows Hrows].
+  { intros p Hp. destruct (Hone p Hp) as [pad [E _]]. rewrite E. eauto. }
+  exists rows. split; [exact Hrows|].
+  intros r Hr. destruct (map_opt_in _ _ _ _ Hrows Hr) as [p [Hp E]].
+  destruct (Hone p Hp) as [pad [E2 Hpad]]. rewrite E2 in E. inversion E; subst r. cbn [r_id r_pad r_pvs].
+  destruct (Hvis _ (Hord _ Hp)) as [H1 H3]. exists (snd p). repeat split; try assumption.
+  exists L. split; [|exact Hpad].
+  destruct Hwit as [E3|[sc [Hsc E3]]]; [left; exact E3|right; exists sc; split; [apply Hvis; exact Hsc|exact E3]].
+Qed.
+
+End P2.
+
+(** ---- usage.rs ---- *)
+Lemma flatset_insert_in x y l : In x (flatset_insert y l) -> x = y \/ In x l.
+Proof.
+  unfold flatset_insert. destruct (existsb _ l); intros H; [right; exact H|].
+  apply in_app_or in H. destruct H as [H|[H|[]]]; [right; exact H|left; symmetry; exact H].
+Qed.
+Lemma vec_set_in {A} n (v : A) l x : In x (vec_flatten (vec_set n v l)) -> x = v \/ In x (vec_flatten l).
+Proof.
+  revert l. induction n as [|n IH]; intros l H; destruct l as [|[y|] t]; cbn [vec_set vec_flatten] in *.
+  - destruct H as [H|[]]. left. symmetry. exact H.
+  - destruct H as [H|H]; [left; symmetry; exact H|right; right; exact H].
+  - destruct H as [H|H]; [left; symmetry; exact H|right; exact H].
+  - apply IH in H. cbn [vec_flatten] in H. exact H.
+  - destruct H as [H|H]; [right; left; exact H|]. apply IH in H. destruct H; [left|right; right]; assumption.
+  - apply IH in H. exact H.
+Qed.
+Lemma vec_get_in {A} n (l : list (option A)) x : vec_get n l = Some x -> In x (vec_flatten l).
+Proof.
+  unfold vec_get. revert l. induction n as [|n IH]; intros l H; destruct l as [|[y|] t]; cbn [nth vec_flatten] in *;
+    try discriminate.
+  - inversion H. left. reflexivity.
+  - right. apply IH. exact H.
+  - apply IH. exact H.
+Qed.
+
+(** where a usage piece may come from: a required argument, or a positional that is not [hide]n *)
+Definition usage_src (c : hcmd) (i : bytes) : Prop :=
+  exists a, In a (hc_args c) /\ ha_id a = i /\ (ha_required a = true \/ (ha_is_positional a = true /\ ha_hide a = false)).
+
+Lemma req_split_spec c reqs : forall opts poss,
+  (forall a, In a reqs -> arg_ok a = true /\ In a (hc_args c) /\ ha_required a = true) ->
+  (forall x, In x opts -> usage_src c (fst x)) -> (forall x, In x (vec_flatten poss) -> usage_src c (fst x)) ->
+  exists r, req_split reqs opts poss = Some r /\ (forall x, In x (fst r) -> usage_src c (fst x))
+            /\ (forall x, In x (vec_flatten (snd r)) -> usage_src c (fst x)).
+Proof.
+  induction reqs as [|a t IH]; intros opts poss Hr Ho Hp; cbn [req_split].
+  - eexists. split; [reflexivity|]. split; assumption.
+  - destruct (Hr a (or_introl eq_refl)) as [Hok [Hin Hreq]].
+    destruct (stylized_some a (Some true) Hok) as [s Hs]. rewrite Hs.
+    assert (Hsrc : usage_src c (ha_id a)) by (exists a; repeat split; auto).
+    destruct (ha_index a) as [i|].
+    + apply IH; [intros b Hb; apply Hr; right; exact Hb|exact Ho|].
+      intros x Hx. apply vec_set_in in Hx. destruct Hx as [Hx|Hx]; [subst; exact Hsrc|apply Hp; exact Hx].
+    + apply IH; [intros b Hb; apply Hr; right; exact Hb| |exact Hp].
+      intros x Hx. apply flatset_insert_in in Hx. destruct Hx as [Hx|Hx]; [subst; exact Hsrc|apply Ho; exact Hx].
+Qed.
+
+Lemma usage_positionals_spec c ps : forall poss,
+  (forall a, In a ps -> arg_ok a = true /\ In a (hc_args c) /\ ha_is_positional a = true) ->
+  (forall x, In x (vec_flatten poss) -> usage_src c (fst x)) ->
+  exists r, usage_positionals ps poss = Some r /\ (forall x, In x (vec_flatten r) -> usage_src c (fst x)).
+Proof.
+  induction ps as [|a t IH]; intros poss Hps Hp; cbn [usage_positionals].
+  - eexists. split; [reflexivity|exact Hp].
+  - destruct (Hps a (or_introl eq_refl)) as [Hok [Hin Hpos]].
+    assert (Ht : forall b, In b t -> arg_ok b = true /\ In b (hc_args c) /\ ha_is_positional b = true)
+      by (intros b Hb; apply Hps; right; exact Hb).
+    destruct (ha_hide a) eqn:Hh; [apply IH; assumption|].
+    destruct (positional_index a Hok Hpos) as [i Hi]. rewrite Hi.
+    destruct (vec_get (N.to_nat i) poss) as [[pid styled]|] eqn:G.
+    + destruct (ha_last a); [|apply IH; assumption].
+      apply IH; [exact Ht|]. intros x Hx. apply vec_set_in in Hx. destruct Hx as [Hx|Hx]; [|apply Hp; exact Hx].
+      subst x. cbn [fst]. apply (Hp (pid, styled)). apply (vec_get_in _ _ _ G).
+    + destruct (stylized_some a (Some true) Hok) as [s1 Hs1]. destruct (stylized_some a (Some false) Hok) as [s2 Hs2].
+      rewrite Hs1, Hs2.
+      assert (Hsrc : usage_src c (ha_id a)) by (exists a; repeat split; auto).
+      destruct (ha_last a); (apply IH; [exact Ht|]; intros x Hx; apply vec_set_in in Hx;
+        destruct Hx as [Hx|Hx]; [subst x; exact Hsrc|apply Hp; exact Hx]).
+Qed.
+
+Definition args_ok (c : hcmd) : Prop := forall a, In a (hc_args c) -> arg_ok a = true.
+
+Lemma usage_arg_items_spec c :
+  args_ok c -> exists items, usage_arg_items c = Some items /\ forall x, In x items -> usage_src c (fst x).
+Proof.
+  intros Hok. unfold usage_arg_items.
+  destruct (req_split_spec c (required_args c) [] []) as [sp [Hsp [H1 H2]]].
+  { intros a Ha. unfold required_args in Ha. apply filter_In in Ha. destruct Ha as [Ha Hr]. auto. }
+  { intros x []. } { intros x []. }
+  rewrite Hsp.
+  destruct (usage_positionals_spec c (filter ha_is_positional (hc_args c)) (snd sp)) as [poss [Hposs H3]].
+  { intros a Ha. apply filter_In in Ha. destruct Ha as [Ha Hp]. auto. }
+  { exact H2. }
+  rewrite Hposs. eexists. split; [reflexivity|].
+  intros x Hx. apply in_app_or in Hx. destruct Hx as [Hx|Hx]; [apply H1|apply H3]; exact Hx.
+Qed.
+
+Lemma usage_pieces_some c : args_ok c -> exists u, usage_pieces c = Some u.
+Proof. intros H. unfold usage_pieces. destruct (usage_arg_items_spec c H) as [it [E _]]. rewrite E. eauto. Qed.
+
+(** ---- sections ---- *)
+Section P3.
+Variable dw : bytes -> N.
+
+Definition cmd_ok (c : hcmd) : Prop :=
+  (forall a, In a (hc_args c) -> arg_ok a = true /\ arg_widths_ok dw a) /\ sub_widths_ok dw c.
+
+(** the two kinds of rows *)
+Definition row_of_arg (use_long : bool) (c : hcmd) (r : row) : Prop :=
+  exists a, In a (hc_args c) /\ should_show_arg use_long a = true /\ r_id r = ha_id a
+            /\ (exists b, (b = 2 \/ exists a', In a' (hc_args c) /\ b = contrib dw a') /\ r_pad r <= b + 6)
+            /\ (forall p, In p (r_pvs r) -> exists pv, In pv (ha_pvs a) /\ pv_hide pv = false /\ pv_name pv = p).
+Definition row_of_sub (c : hcmd) (r : row) : Prop :=
+  exists sc, In sc (hc_subs c) /\ hc_hide sc = false /\ r_id r = hc_name sc
+             /\ (exists b, (b = 2 \/ exists s', In s' (hc_subs c) /\ b = dw (sc_str s')) /\ r_pad r <= b + 2)
+             /\ r_pvs r = [].
+
+Lemma write_args_sub cx c args key :
+  cmd_ok c -> (forall a, In a args -> In a (hc_args c)) ->
+  exists rows, write_args dw cx args key = Some rows /\ forall r, In r rows -> row_of_arg (cx_use_long cx) c r.
+Proof.
+  intros [Hc _] Hsub.
+  destruct (write_args_spec dw cx args key) as [rows [Hrows Hr]].
+  { intros a Ha. apply Hc. apply Hsub. exact Ha. }
+  exists rows. split; [exact Hrows|]. intros r Hin.
+  destruct (Hr r Hin) as [a [Ha [Hs [Hid [[b [Hb Hpad]] Hpv]]]]].
+  exists a. repeat split; auto.
+  exists b. split; [|exact Hpad]. destruct Hb as [Hb|[a' [Ha' Hb]]]; [left; exact Hb|right; exists a'; auto].
+Qed.
+
+Definition secs_ok (use_long : bool) (c : hcmd) (secs : list section) : Prop :=
+  forall sec r, In sec secs -> In r (s_rows sec) -> row_of_arg use_long c r \/ row_of_sub c r.
+
+Lemma heading_sections_spec cx c hs :
+  cmd_ok c -> exists secs, heading_sections dw cx c hs = Some secs /\ secs_ok (cx_use_long cx) c secs.
+Proof.
+  intros Hc. induction hs as [|h t IH]; cbn [heading_sections].
+  - exists []. split; [reflexivity|]. intros sec r [].
+  - destruct IH as [rest [Hrest Hok]]. rewrite Hrest.
+    set (args := filter (should_show_arg (cx_use_long cx)) (filter (heading_is h) (hc_args c))).
+    destruct (is_nil args).
+    + exists rest. split; [reflexivity|exact Hok].
+    + destruct (write_args_sub cx c args option_sort_key Hc) as [rows [Hrows Hr]].
+      { intros a Ha. unfold args in Ha. apply filter_In in Ha. destruct Ha as [Ha _]. apply filter_In in Ha. apply Ha. }
+      rewrite Hrows. eexists. split; [reflexivity|].
+      intros sec r [Hs|Hs] Hin; [subst sec; left; apply Hr; exact Hin|apply (Hok sec r Hs Hin)].
+Qed.
+
+Lemma write_all_args_spec cx c :
+  cmd_ok c -> exists secs, write_all_args dw cx c = Some secs /\ secs_ok (cx_use_long cx) c secs.
+Proof.
+  intros Hc. unfold write_all_args.
+  set (show := should_show_arg (cx_use_long cx)).
+  set (pos := filter show (filter (fun a => negb (is_some (ha_heading a))) (filter ha_is_positional (hc_args c)))).
+  set (non_pos := filter show (filter (fun a => negb (is_some (ha_heading a))) (filter (fun a => negb (ha_is_positional a)) (hc_args c)))).
+  assert (Hs1 : exists s1, (if has_visible_subcommands c
+            then match write_subcommands dw cx c with Some rows => Some [mkSec s_commands rows] | None => None end
+            else Some []) = Some s1 /\ secs_ok (cx_use_long cx) c s1).
+  { destruct (has_visible_subcommands c).
+    - destruct (write_subcommands_spec dw cx c (proj2 Hc)) as [rows [Hrows Hr]]. rewrite Hrows.
+      eexists. split; [reflexivity|]. intros sec r [Hs|[]] Hin. subst sec. right. apply Hr. exact Hin.
+    - exists []. split; [reflexivity|]. intros sec r []. }
+  destruct Hs1 as [s1 [E1 Ok1]]. rewrite E1.
+  assert (Hs2 : exists s2, (if is_nil pos then Some []
+            else match write_args dw cx pos positional_sort_key with Some rows => Some [mkSec s_arguments rows] | None => None end) = Some s2
+            /\ secs_ok (cx_use_long cx) c s2).
+  { destruct (is_nil pos).
+    - exists []. split; [reflexivity|]. intros sec r [].
+    - destruct (write_args_sub cx c pos positional_sort_key Hc) as [rows [Hrows Hr]].
+      { intros a Ha. unfold pos in Ha. repeat (apply filter_In in Ha; destruct Ha as [Ha _]). exact Ha. }
+      rewrite Hrows. eexists. split; [reflexivity|]. intros sec r [Hs|[]] Hin. subst sec. left. apply Hr. exact Hin. }
+  destruct Hs2 as [s2 [E2 Ok2]]. rewrite E2.
+  assert (Hs3 : exists s3, (if is_nil non_pos then Some []
+            else match write_args dw cx non_pos option_sort_key with Some rows => Some [mkSec s_options rows] | None => None end) = Some s3
+            /\ secs_ok (cx_use_long cx) c s3).
+  { destruct (is_nil non_pos).
+    - exists []. split; [reflexivity|]. intros sec r [].
+    - destruct (write_args_sub cx c non_pos option_sort_key Hc) as [rows [Hrows Hr]].
+      { intros a Ha. unfold non_pos in Ha. repeat (apply filter_In in Ha; destruct Ha as [Ha _]). exact Ha. }
+      rewrite Hrows. eexists. split; [reflexivity|]. intros sec r [Hs|[]] Hin. subst sec. left. apply Hr. exact Hin. }
+  destruct Hs3 as [s3 [E3 Ok3]]. rewrite E3.
+  destruct (heading_sections_spec cx c (custom_headings c) Hc) as [s4 [E4 Ok4]]. rewrite E4.
+  eexists. split; [reflexivity|].
+  intros sec r Hs Hin. repeat (apply in_app_or in Hs; destruct Hs as [Hs|Hs]);
+    [apply (Ok1 sec r Hs Hin)|apply (Ok2 sec r Hs Hin)|apply (Ok3 sec r Hs Hin)|apply (Ok4 sec r Hs Hin)].
+Qed.
+
+(** [write_help] is total on a built command, for every width, mode and display-width function *)
+Lemma write_help_spec c use_long w :
+  cmd_ok c -> exists s, write_help dw c use_long w = Some s /\ secs_ok use_long c (scr_sections s)
+                        /\ scr_about s = write_about use_long c.
+Proof.
+  intros Hc. unfold write_help.
+  destruct (usage_pieces_some c) as [u Hu]. { intros a Ha. apply (proj1 Hc a Ha). }
+  rewrite Hu.
+  destruct (write_all_args_spec (mkCtx use_long (term_w_of w) (h_is_set hs_next_line c)) c Hc) as [secs [Hs Hok]].
+  rewrite Hs. eexists. split; [reflexivity|]. split; [exact Hok|reflexivity].
+Qed.
+
+End P3.
